@@ -1094,3 +1094,108 @@ Example c18_table_witness :
   open_table rows 2 = Return [(1, HOffset 0); (5, HConst 4000); (9, HOffset 1); (13, HConst 0)] /\
   torn_table rows 2 = [(1, 0, 1); (5, 4000, 0); (9, 0, 9); (13, 0, 13)].
 Proof. repeat split; reflexivity. Qed.
+
+(* ================================================================== the fourth fan-out *)
+Open Scope Z_scope.
+(* ---- read_and_decompress_zslice_set_adv: one block read per task, distributed into blockshape0/4 sub-slices ---- *)
+Lemma distinct_slots L Q qs : 0 <= L -> NoDup qs -> (forall q, In q qs -> 0 <= q < Q) ->
+  slots_okb (Z.to_nat (Q * L)) (map (fun q => (Z.to_nat (q * L), Z.to_nat L)) qs) = true.
+Proof.
+  intros HL ND HB. induction qs as [|q r IH]; [reflexivity|].
+  inversion ND as [|q' r' NI ND']; subst. cbn [map slots_okb fst snd].
+  pose proof (HB q (or_introl eq_refl)) as Bq.
+  apply andb_true_intro; split; [apply andb_true_intro; split|].
+  - apply Nat.leb_le. rewrite <- Z2Nat.inj_add by nia. apply Z2Nat.inj_le; nia.
+  - apply forallb_forall. intros a Ha. apply in_map_iff in Ha as (q2 & <- & H2).
+    assert (NE : q2 <> q) by (intro; subst; contradiction).
+    pose proof (HB q2 (or_intror H2)) as B2.
+    unfold slot_disj. cbn [fst snd]. apply orb_true_iff.
+    destruct (Z_lt_le_dec q q2); [left|right]; apply Nat.leb_le; rewrite <- Z2Nat.inj_add by nia; apply Z2Nat.inj_le; nia.
+  - apply IH; [exact ND' | intros; apply HB; right; assumption].
+Qed.
+
+Lemma NoDup_app' {A} (a b : list A) : NoDup a -> NoDup b -> (forall x, In x a -> ~ In x b) -> NoDup (a ++ b).
+Proof.
+  induction a as [|x a IH]; intros Na Nb D; [exact Nb|]. inversion Na as [|x' a' NI Na']; subst. cbn. constructor.
+  - intro H. apply in_app_or in H as [H|H]; [contradiction | exact (D x (or_introl eq_refl) H)].
+  - apply IH; [exact Na' | exact Nb | intros y Hy; apply D; right; exact Hy].
+Qed.
+
+Lemma NoDup_map_inj_in {A B} (f : A -> B) l : NoDup l -> (forall x y, In x l -> In y l -> f x = f y -> x = y) -> NoDup (map f l).
+Proof.
+  induction l as [|a l IH]; intros N I; [constructor|]. inversion N as [|a' l' NI N']; subst. cbn. constructor.
+  - intro H. apply in_map_iff in H as (y & E & Hy). assert (y = a) by (apply I; [right; exact Hy | left; reflexivity | exact E]).
+    subst. contradiction.
+  - apply IH; [exact N' | intros x y Hx Hy; apply I; right; assumption].
+Qed.
+
+Lemma NoDup_flat_map_inj {A B} (g : A -> list B) l : NoDup l -> (forall a, In a l -> NoDup (g a)) ->
+  (forall a a' x, In a l -> In a' l -> In x (g a) -> In x (g a') -> a = a') -> NoDup (flat_map g l).
+Proof.
+  induction l as [|a l IH]; intros N G D; [constructor|]. inversion N as [|a' l' NI N']; subst. cbn [flat_map].
+  apply NoDup_app'.
+  - apply G. left. reflexivity.
+  - apply IH; [exact N' | intros; apply G; right; assumption | intros b b' x Hb Hb'; apply D; right; assumption].
+  - intros x Hx Hf. apply in_flat_map in Hf as (b & Hb & Hxb).
+    assert (a = b) by (apply (D a b x); [left; reflexivity | right; exact Hb | exact Hx | exact Hxb]). subst. contradiction.
+Qed.
+
+Definition qf (b1 nsub b s : Z) : Z := ((b / b1) * nsub + s) * b1 + b mod b1.
+
+Lemma qf_inj b1 nsub b s b' s' : 0 < b1 -> 0 <= s < nsub -> 0 <= s' < nsub -> 0 <= b -> 0 <= b' ->
+  qf b1 nsub b s = qf b1 nsub b' s' -> b = b' /\ s = s'.
+Proof.
+  intros H1 Hs Hs' Hb Hb' E. unfold qf in E.
+  pose proof (Z.mod_pos_bound b b1 H1) as R. pose proof (Z.mod_pos_bound b' b1 H1) as R'.
+  destruct (Z.div_mod_unique b1 (b / b1 * nsub + s) (b' / b1 * nsub + s') (b mod b1) (b' mod b1)) as [E1 E2]; [lia | lia | lia |].
+  destruct (Z.div_mod_unique nsub (b / b1) (b' / b1) s s') as [E3 E4]; [lia | lia | lia |].
+  split; [|exact E4]. rewrite (Z.div_mod b b1), (Z.div_mod b' b1) by lia. rewrite E3, E2. reflexivity.
+Qed.
+
+Lemma qf_bound b0 b1 nsub b s : 0 < b1 -> 0 <= b0 -> 0 <= b < b0 * b1 -> 0 <= s < nsub -> 0 <= qf b1 nsub b s < b0 * nsub * b1.
+Proof.
+  intros H1 H0 Hb Hs. unfold qf. pose proof (Z.mod_pos_bound b b1 H1) as R.
+  assert (I : 0 <= b / b1 < b0). { split; [apply Z.div_pos; lia | apply Z.div_lt_upper_bound; lia]. }
+  set (i := b / b1) in *. set (r := b mod b1) in *.
+  assert (A : 0 <= i * nsub + s <= b0 * nsub - 1) by nia.
+  split; [nia|]. assert ((i * nsub + s) * b1 <= (b0 * nsub - 1) * b1) by nia. nia.
+Qed.
+
+Definition adv_tasks (bb b0 b1 b2 bs0 r1 r2 zf : Z) : list task :=
+  map (fun b => ztask (zslice_set_adv_read bb b1 b2 zf b) (zslice_set_adv_moves bb b1 bs0 r1 r2 b)) (zrange 0 (zslice_set_adv_ntasks b0 b1)).
+
+Lemma flat_map_map {A B C} (f : A -> B) (g : B -> list C) l : flat_map g (map f l) = flat_map (fun a => g (f a)) l.
+Proof. induction l as [|a l IH]; [reflexivity|]. cbn. rewrite IH. reflexivity. Qed.
+Lemma map_flat_map {A B C} (f : B -> C) (g : A -> list B) l : map f (flat_map g l) = flat_map (fun a => map f (g a)) l.
+Proof. induction l as [|a l IH]; [reflexivity|]. cbn. rewrite map_app, IH. reflexivity. Qed.
+Lemma flat_map_ext_in {A B} (f g : A -> list B) l : (forall a, In a l -> f a = g a) -> flat_map f l = flat_map g l.
+Proof. induction l as [|a l IH]; intro H; [reflexivity|]. cbn. rewrite (H a (or_introl eq_refl)), IH; [reflexivity|]. intros; apply H; right; assumption. Qed.
+
+Lemma zslice_set_adv_tasks_ok bb b0 b1 b2 bs0 r1 r2 zf :
+  0 <= r1 / 8 -> 0 <= bs0 / 4 -> 0 <= b0 -> 0 < b1 -> bb = (bs0 / 4) * (r1 / 8) -> r2 / 8 = b1 * (r1 / 8) ->
+  tasks_okb (Z.to_nat (zslice_set_adv_buflen bb b0 b1)) (adv_tasks bb b0 b1 b2 bs0 r1 r2 zf) = true.
+Proof.
+  intros Hs Hn H0 H1 Ebb Erow. set (sbs := r1 / 8) in *. set (nsub := bs0 / 4) in *.
+  unfold tasks_okb, adv_tasks, zslice_set_adv_ntasks, zslice_set_adv_buflen. apply andb_true_intro; split.
+  - apply forallb_forall. intros t Ht. apply in_map_iff in Ht as (b & <- & Hb).
+    unfold task_okb, ztask, zslice_set_adv_moves, zslice_set_adv_read. cbn [t_moves t_len snd]. fold sbs nsub.
+    apply forallb_forall. intros m Hm. apply in_map_iff in Hm as (m0 & <- & Hm0). apply in_map_iff in Hm0 as (s & <- & Hs0).
+    apply in_zrange in Hs0. cbn [zmove]. apply Nat.leb_le. rewrite <- Z2Nat.inj_add by nia. apply Z2Nat.inj_le; nia.
+  - rewrite flat_map_map.
+    rewrite (flat_map_ext_in _ (fun b => map (fun s => (Z.to_nat (qf b1 nsub b s * sbs), Z.to_nat sbs)) (zrange 0 nsub))).
+    2:{ intros b Hb. unfold task_slots, ztask, zslice_set_adv_moves. cbn [t_moves]. fold sbs nsub. rewrite !map_map.
+        apply map_ext. intro s. cbn [zmove]. f_equal; f_equal; [|ring]. rewrite Ebb, Erow. unfold qf. ring. }
+    rewrite <- (flat_map_ext_in (fun b => map (fun q => (Z.to_nat (q * sbs), Z.to_nat sbs)) (map (qf b1 nsub b) (zrange 0 nsub))))
+      by (intros; rewrite map_map; reflexivity).
+    rewrite <- map_flat_map.
+    replace (bb * b0 * b1) with ((b0 * nsub * b1) * sbs) by (rewrite Ebb; ring).
+    apply distinct_slots; [exact Hs | |].
+    + apply NoDup_flat_map_inj.
+      * apply zrange_NoDup.
+      * intros b Hb. apply NoDup_map_inj_in; [apply zrange_NoDup|]. intros s s' Hs1 Hs2 E. apply in_zrange in Hs1, Hs2, Hb.
+        apply (qf_inj b1 nsub b s b s'); lia || exact E.
+      * intros b b' q Hb Hb' Hq Hq'. apply in_map_iff in Hq as (s & Es & Hs1). apply in_map_iff in Hq' as (s' & Es' & Hs2).
+        apply in_zrange in Hs1, Hs2, Hb, Hb'. apply (qf_inj b1 nsub b s b' s'); first [lia | congruence].
+    + intros q Hq. apply in_flat_map in Hq as (b & Hb & Hq). apply in_map_iff in Hq as (s & <- & Hs1).
+      apply in_zrange in Hs1, Hb. apply qf_bound; lia.
+Qed.
